@@ -267,9 +267,14 @@ func (w *fsWallet) getSignerForAddr(ctx context.Context, from ethtypes.Address0x
 func (w *fsWallet) GetWalletFile(ctx context.Context, addr ethtypes.Address0xHex) (keystorev3.WalletFile, error) {
 
 	addrString := addr.String()
+	// ccache's Get reads the item expiry without synchronization, while Extend stores it: serialize the pair
+	w.mux.Lock()
 	cached := w.signerCache.Get(addrString)
 	if cached != nil {
 		cached.Extend(w.signerCacheTTL)
+	}
+	w.mux.Unlock()
+	if cached != nil {
 		return cached.Value().(keystorev3.WalletFile), nil
 	}
 
